@@ -503,7 +503,7 @@ def main():
     if "--replay" in sys.argv:
         inp = json.loads(sys.argv[sys.argv.index("--replay") + 1])
         ctx = Ctx()
-        ok = run_case(inp, ctx)
+        ok = run_case(inp, ctx) and not ctx.failures
         print(json.dumps({"ok": bool(ok), "failures": list(ctx.kept.values())}, indent=1, default=str))
         return 0 if ok else 1
     tier = os.environ.get("VERIF_TIER", "quick")
@@ -546,8 +546,8 @@ def main():
                    "side of the tunnel by the oracle (or sits in a forwarded net with a clashing netmask)",
            "bound": "layouts=%d/%d (7-node hand-made + seeded random 3..6 nodes, <=3 nics), init on %d layout(s) x <=2 ordered end point "
                     "pairs: 18 type combos x 27 nic-key shapes x 7 auth shapes + 54 type-only + 414 undocumented-type cases; "
-                    "variant 18x27; connects: all ordered end point pairs x (18 + forwardings over ordered pairs of %d candidate nets) "
-                    "(all of them for custom/custom/ip, every fifth for the other shapes)) x all unordered node pairs in both orders; the "
+                    "variant 18x27; connects: all ordered end point pairs x (18 + forwardings over ordered pairs of %d candidate nets: "
+                    "all of them for custom/custom/ip, every fifth for the other shapes) x all unordered node pairs in both orders; the "
                     "random layouts are a seeded sample" % (done, len(layouts), n_init, len(LAN_POOL)),
            "exhaustive": bool(exhaustive), "samples": samples[:6], "failure_counts": ctx.counts,
            "failures": list(ctx.kept.values())[:10]}
